@@ -296,6 +296,7 @@ type Exec struct {
 	unwindIsViolation bool
 	bigW              int
 	hashBits          int
+	flatBases         map[int]flatBaseInfo
 	splitIndex        bool
 }
 
@@ -334,6 +335,7 @@ func (ex *Exec) resetPath(prefix []int) {
 	ex.unwind = 64
 	ex.bigW = defaultBigW
 	ex.hashBits = 0
+	ex.flatBases = nil
 	ex.splitIndex = false
 	ex.unwindIsViolation = false
 	ex.depth = 0
